@@ -142,7 +142,11 @@ class ArrView:
         return z3.Select(m.vals, off)
 
     def defined(self, i):
-        return z3.Select(self._mem().defd, self.ptr.off + smt.integer(i) * ct.nscalars(self.ptr.pointee))
+        """element i (all of its scalars, when the element is itself an array) holds defined values"""
+        n = ct.nscalars(self.ptr.pointee)
+        base = z3.simplify(self.ptr.off + smt.integer(i) * n)
+        d = self._mem().defd
+        return smt.conj([z3.Select(d, z3.simplify(base + t)) for t in range(n)])
 
     @property
     def length(self):
